@@ -357,8 +357,18 @@ func c18FlateWriter(r *eng.Run) {
 		p1.WFailN = r.T.Int(sim.LFaultAt, 3)
 	}
 	w := wsflate.NewWriter(p1, ctor)
-	mode1 := r.T.Int(sim.LHist, 4)
+	mode1 := r.T.Int(sim.LHist, 7)
 	switch mode1 {
+	case 4: // a life without a single Write call: closed at once
+		w.Close()
+		r.Probe("first_life_without_a_write")
+	case 5: // ... flushed at once
+		w.Flush()
+		r.Probe("first_life_without_a_write")
+	case 6: // ... flushed and closed
+		w.Flush()
+		w.Close()
+		r.Probe("first_life_without_a_write")
 	case 0: // complete message
 		flateHistory(w, m1, []int{len(m1) / 2}, r.T.Bool(sim.LHist))
 	case 1: // unflushed
